@@ -250,9 +250,13 @@ fn c08_hist(input: &Input, obs: &mut Obs) -> Result<(), Fail> {
                         if k + 1 < w.outstanding.len() {
                             delayed = true;
                         }
-                        let size = resp_size(&mut s, big);
-                        if size > 200_000 || (small_buf && size > 3000) {
+                        // (now and then a response whose body is set and empty: Content-Length 0)
+                        let size = if s.chance(16) { usize::MAX } else { resp_size(&mut s, big) };
+                        if size != usize::MAX && (size > 200_000 || (small_buf && size > 3000)) {
                             had_big = true;
+                        }
+                        if size == usize::MAX {
+                            obs.label("response_with_explicitly_empty_body");
                         }
                         w.respond(k, CODES[s.below(CODES.len())], size);
                     }
@@ -1141,7 +1145,9 @@ fn c10_hist(input: &Input, obs: &mut Obs) -> Result<(), Fail> {
                 5 => {
                     if !w.outstanding.is_empty() {
                         let size = if s.chance(30) { 300_000 } else { s.range(0, 500) };
-                        w.respond(0, 200, size);
+                        // any status the application likes, interim and body-less ones included
+                        let code = [200u16, 200, 404, 100, 204, 503, 400][s.weighted(&[8, 8, 2, 3, 3, 1, 1])];
+                        w.respond(0, code, size);
                     }
                 }
                 6 => {
@@ -2421,6 +2427,10 @@ enum KOp {
     Flush,
     /// a second response for an already answered request of an idle connection
     Surplus(usize),
+    /// every connected client pipelines this many small requests, no poll in between
+    BurstAll(usize),
+    /// one client sends a long malformed header line made of multi-byte characters
+    LongGarbage(usize, usize, usize),
 }
 
 fn k_apply(w: &mut World, op: &KOp, next_slot: &mut usize) {
@@ -2487,6 +2497,30 @@ fn k_apply(w: &mut World, op: &KOp, next_slot: &mut usize) {
         KOp::Surplus(i) => {
             w.respond_surplus(*i);
         }
+        KOp::BurstAll(n) => {
+            let spec = ReqSpec { method: 0, version: 1, body: 0, expect: false, extra_headers: 0, body_kind: 0 };
+            for c in conn {
+                if w.clients[c].dirty || !w.clients[c].staged.is_empty() {
+                    continue;
+                }
+                for _ in 0..*n {
+                    w.send_request(c, &spec, &[]);
+                }
+            }
+        }
+        KOp::LongGarbage(who, pre, n) => {
+            if !conn.is_empty() {
+                let c = conn[*who % conn.len()];
+                let mut g = b"GET / HTTP/1.1\r\nContent-Length: ".to_vec();
+                g.extend(std::iter::repeat(b'a').take(*pre));
+                for _ in 0..*n {
+                    g.extend_from_slice("\u{e9}".as_bytes());
+                }
+                g.extend_from_slice(b"\r\n\r\n");
+                w.clients[c].dirty = true;
+                w.send_raw(c, &g);
+            }
+        }
     }
 }
 
@@ -2506,7 +2540,9 @@ fn k_gen(s: &mut Src) -> (Vec<KOp>, bool) {
         }
     }
     for _ in 0..n {
-        let op = match s.weighted(&[5, 10, 3, 3, 2, 8, 6, 3, 2, 1, 2]) {
+        let op = match s.weighted(&[5, 10, 3, 3, 2, 8, 6, 3, 2, 1, 2, 2, 1]) {
+            12 => KOp::LongGarbage(s.u8() as usize, s.below(4), s.range(100, 400)),
+            11 => KOp::BurstAll(s.range(20, 45)),
             10 => KOp::Surplus(s.u8() as usize),
             9 => KOp::Flush,
             8 => KOp::SendAll(s.chance(128)),
@@ -2753,6 +2789,23 @@ fn c04_server(input: &Input, obs: &mut Obs) -> Result<(), Fail> {
                 w.connect(next);
                 next += 1;
                 w.settle(200, true);
+            }
+            // now and then a client first receives a response that took the server several writes
+            // (it reads late): the verdict on its next request is delivered all the same
+            if s.chance(40) {
+                if let Some(c) = connected(&w).into_iter().find(|c| !w.clients[*c].dirty && w.clients[*c].limit >= 1) {
+                    let spec = ReqSpec { method: 0, version: 1, body: 0, expect: false, extra_headers: 0, body_kind: 0 };
+                    w.clients[c].lazy = true;
+                    w.send_request(c, &spec, &[]);
+                    w.settle(200, true);
+                    if let Some(kk) = w.outstanding.iter().position(|o| o.c == c) {
+                        w.respond(kk, 200, [300_000usize, 700_000][s.below(2)]);
+                        w.settle(200, true);
+                        obs.label("earlier_response_needed_several_writes");
+                    }
+                    w.clients[c].lazy = false;
+                    w.settle(400, true);
+                }
             }
             // every connected client sends a request with n around its own limit
             for c in connected(&w) {
@@ -3148,6 +3201,19 @@ fn c13_server(input: &Input, obs: &mut Obs) -> Result<(), Fail> {
                 staged = if n > 0 { vec![b2[hdr..].to_vec()] } else { vec![] };
                 w.send_raw(c, &bytes);
                 obs.label("complete_request_and_expect_headers_in_one_send");
+                if s.chance(128) {
+                    // the application answers the first request right after the poll that yielded
+                    // it, i.e. before the server had a chance to write the interim response
+                    let mut g = 0;
+                    while !w.outstanding.iter().any(|o| o.c == c) && w.epoll_ready() && g < 4 {
+                        w.poll();
+                        g += 1;
+                    }
+                    if let Some(kk) = w.outstanding.iter().position(|o| o.c == c) {
+                        w.respond(kk, 200, s.range(0, 50));
+                        obs.label("front_request_answered_before_the_interim_response_is_written");
+                    }
+                }
             } else {
                 // header block only
                 w.send_request(c, &spec, &[hdr]);
